@@ -3,3 +3,4 @@ import BadsModel.Mesh
 import BadsModel.Filter
 import BadsModel.Controller
 import BadsModel.Logger
+import BadsModel.Pipeline
